@@ -7,8 +7,8 @@ TRUST = ("Trusted: Verus/Z3; the mechanical extraction rules (DESIGN.md 4); assu
          "chain semantics (rollback on Err/abort, messages executed exactly). ")
 P = {
  'C01': ("Per-operation ledger/state postconditions on every handler (real bodies) + lemma_C01_step / lemma_C01_base / lemma_C01_migrate: "
-         "holdings and owed_total change by the same amount for every request kind, for all inputs and states; induction over histories is the meta-argument.",
-         "Assumes the contract address itself is not a party (A-SELF, stated as not_party) and funds attached to instantiate are outside the ledger."),
+         "holdings and owed_total change by the same amount for every request kind, for all inputs and states; ",
+         "Induction over histories is machine-checked (lemma_history, lemma_C01_history). Assumes the contract address is no party of the initial state, never sends a request and is never named as fee account (self_free); that it then never becomes a party is proved (lemma_not_party_step). Funds attached to instantiate are outside the ledger."),
  'C02': ("execute_match (real body, split into clause-group copies) proved against the full per-(account,denomination) settlement formula, the remaining-amount updates and lemma_match_fee_share.", ""),
  'C03': ("execute_match::C03.only_if (all eligibility conditions implied by Ok) + lemma_C03_limits; ExecuteMsg::validate proved as an equivalence; converse direction proved in strict mode (execute_match::C03.if).",
          "Converse direction under the arithmetic range premise A-RANGE."),
@@ -19,7 +19,7 @@ P = {
  'C07': ("create_ask / create_bid only_if + exact-escrow + recorded clauses on the real bodies; validate equivalence; converse in strict mode.", "Converse under A-RANGE."),
  'C08': ("approve_ask closure contract woven into the real closure, only_if/escrow/recorded clauses; W4 (approver amount == size) is part of the inductive invariant wf and of every ask-writing handler's state clause.", ""),
  'C09': ("create_bid entry fee == fee_of(rate, total); ask fee in match_q; W7 (held fee == prorata of unspent quote) inductive; lemma_C09_closes, lemma_match_fee_share.",
-         "Closeness of the 28-digit quotient to the exact quotient (the half-unit tolerance) is assumed with A-DEC-DIV, not proved."),
+         "Nearest-unit exactness of the pro-rata fee is proved (lemma_C09_nearest) from the accuracy axioms of the 28-digit quotient/product for 3*fee*quote < 10^28; above that bound it can be one unit off (known finding K1, replayed on every run)."),
  'C10': ("Call-site preconditions on add_transfer (flag == restricted(denom), amount > 0, from == contract) at every call in the real code; payouts_ok / escrowed_exactly on every handler; util.rs verified verbatim.", ""),
  'C11': ("State clauses are whole-map equalities (only the named key changes; other side, info, version equal); immutable terms in ask_reduced / bid_advanced; wf (W2-W7) inductive.", ""),
  'C12': ("modify_contract sides/approver-superset/fieldwise clauses, check_fee_rate / check_required_attributes contracts, every other handler's frame leaves info unchanged.", ""),
@@ -54,11 +54,11 @@ m = {
            "source_commits": [], "add_only": True},
  "engines": [{"name": "verus-contracts", "path": "/verif/tools", "serves_properties": sorted(P),
               "kind_free_text": "extract real function bodies -> weave contracts -> Verus (Z3) -> attribute failed obligations to labelled clauses"},
-             {"name": "ats-replay", "path": "/verif/replay", "serves_properties": ["C01", "C02", "C04", "C06", "C08", "C09", "C10", "C11"],
-              "kind_free_text": "replays JSON histories on the real contract code; best-effort witness search for a failed obligation; never decides a property"}],
+             {"name": "ats-replay", "path": "/verif/replay", "serves_properties": sorted(P),
+              "kind_free_text": "replays JSON histories on the real contract code with 16 executable oracles and an independent reader of the stored byte formats; used for (i) a concrete failing history next to a failed obligation, (ii) golden-state histories replayed by the C13-C16 checks, (iii) the thorough tier's exploration, (iv) the bounded stand-in when a function is out of the verifier's reach on the current tree (a hit is a VIOLATION with the history as replay; no hit leaves exit 2). Never counted as proof"}],
  "checks": checks,
  "not_applicable": [],
- "notes": "See DESIGN.md. Exit 2 of a check means undecided (tool limit), never an alarm. Genuine defects found and repaired: known_findings.json.",
+ "notes": "See DESIGN.md. Exit 2 of a check means undecided (tool limit / code out of the verifier's reach and the bounded stand-in found nothing), never an alarm. Genuine defects found and repaired: known_findings.json.",
 }
 json.dump(m, open(os.path.join(V, 'MANIFEST.json'), 'w'), indent=1)
 print('wrote MANIFEST.json with %d checks' % len(checks))
